@@ -376,6 +376,15 @@ async fn hive_style_partitions_demuxer(
         }
     }
 
+    // The senders close their channels when the map is dropped, in the map's
+    // (randomly keyed) iteration order: under simulation that order is the
+    // simulator's choice too.
+    #[cfg(datafusion_verif)]
+    drop(datafusion_common::verif::simulated_order(
+        "demux:value_map_drop",
+        value_map.drain().collect(),
+    ));
+
     Ok(())
 }
 
